@@ -1,6 +1,7 @@
 """Run Kani harnesses of /verif/kani against the real crate (hooks on) and parse the results."""
 import fcntl
 import filecmp
+import resource
 import os
 import re
 import shutil
@@ -34,6 +35,15 @@ def prepare(repo, work, root):
         if not os.path.exists(os.path.join(srcdir, fn)):
             os.unlink(os.path.join(d, "src", fn))
     return d
+
+
+def _limit_mem():
+    # a runaway SAT instance must not take the machine down: 14 GB address space per process
+    lim = 14 * 1024 * 1024 * 1024
+    try:
+        resource.setrlimit(resource.RLIMIT_AS, (lim, lim))
+    except Exception:
+        pass
 
 
 def kani_env(work):
@@ -128,7 +138,7 @@ def run_harnesses(harnesses, repo, work, root, log, jobs=12, timeout=3000, extra
     try:
         d = prepare(repo, work, root)
         try:
-            p = subprocess.run(cmd, cwd=d, env=kani_env(work), stdout=subprocess.PIPE, stderr=subprocess.STDOUT, text=True, timeout=timeout)
+            p = subprocess.run(cmd, cwd=d, env=kani_env(work), stdout=subprocess.PIPE, stderr=subprocess.STDOUT, text=True, timeout=timeout, preexec_fn=_limit_mem)
             out = p.stdout
             timed_out = False
         except subprocess.TimeoutExpired as e:
@@ -168,7 +178,7 @@ def playback(harness, repo, work, root, timeout=1200):
     lockf = open(os.path.join(work, "kani.lock"), "w")
     fcntl.flock(lockf, fcntl.LOCK_EX)
     try:
-        p = subprocess.run(cmd, cwd=d, env=kani_env(work), stdout=subprocess.PIPE, stderr=subprocess.STDOUT, text=True, timeout=timeout)
+        p = subprocess.run(cmd, cwd=d, env=kani_env(work), stdout=subprocess.PIPE, stderr=subprocess.STDOUT, text=True, timeout=timeout, preexec_fn=_limit_mem)
     except subprocess.TimeoutExpired:
         return None, ""
     finally:
